@@ -3,7 +3,7 @@ from .. import syscorr
 from ..framework import canon
 
 PROP = "C08"
-LEAN_TARGETS = ["Eliot.Properties.C08", "Eliot.Properties.C08Dyn"]
+LEAN_TARGETS = ["Eliot.Properties.C08", "Eliot.Properties.C08Dyn", "Eliot.Properties.C08Acct"]
 AUDIT = "Eliot/Audit/C08.lean"
 THEOREMS = ["Sys.C08.prim", "Sys.C08.offered_same_everywhere", "Sys.C08.healthy_unaffected", "Sys.C08.run_offered_eq_stage",
             "Sys.C08.report_accounting", "Sys.C08.errors_bound", "Sys.C08.no_report_of_report", "Sys.C08.report_is_report",
@@ -12,7 +12,10 @@ THEOREMS = ["Sys.C08.prim", "Sys.C08.offered_same_everywhere", "Sys.C08.healthy_
             "Sys.C08.healthy_accepts_while_registered", "Sys.C08.nothing_before_first_add", "Sys.C08.offered_since",
             "Sys.C08.unregistered_gets_nothing", "Sys.C08.removed_gets_nothing_after", "Sys.C08.removed_gets_nothing_after_run",
             "Sys.C08.added_later_gets_nothing_before", "Sys.C08.offered_same_everywhere_reg", "Sys.C08.run_offered_eq_stage_reg",
-            "Sys.reg_deliver", "Sys.reg_addDests", "Sys.execB_liftQ"]
+            "Sys.reg_deliver", "Sys.reg_addDests", "Sys.execB_liftQ",
+            "Sys.C08.collected_errors", "Sys.C08.collected_errors_nodup", "Sys.C08.collected_errors_report",
+            "Sys.C08.call_number_is_offered_count", "Sys.C08.collected_errors_reachable", "Sys.C08.reports_per_raiser",
+            "Sys.C08.reports_match_failures", "Sys.C08.reports_match_failures_from", "Sys.acct_execB", "Sys.execB_liftC"]
 RULE = ("random programs of the core language run against 1-4 destinations registered at the start, each with an independent "
         "failure mask over its call sequence (densities 0, p, 0.5, 1.0 = permanently broken; masks also hit the reports themselves), "
         "plus a third of the cases with destinations added/removed mid-run (correspondence, report-per-failure oracle and the "
